@@ -15,7 +15,10 @@
    [edit_script_run_cap eqb lx rx lhs rhs] is the same model run on inputs whose backing arrays
    continue with lx / rx beyond their lengths (Go checks slice bounds against cap, not len);
    [edit_script_run] is the instance without spare capacity.  All theorems hold for every
-   element type and every equivalence eqb. *)
+   element type and every PARTIAL equivalence eqb (symmetric, transitive -- not necessarily
+   reflexive): that is what == is on every comparable Go type, floating-point NaN included
+   (NaN == NaN is false; such elements are related to nothing, never kept, always dropped /
+   copied).  Only C11_executes wants reflexivity (to say the output equals rhs up to eqb). *)
 From Coq Require Import ZArith List Bool PeanoNat.
 Import ListNotations.
 From Mds Require Import Gen.EditIdx Slice.Subseq Slice.LcsModel Slice.EditModel Slice.EditSpecProofs
@@ -33,7 +36,6 @@ From Mds Require Import Gen.EditIdx Slice.Subseq Slice.LcsModel Slice.EditModel 
    when lhs and rhs are equal under eqb. *)
 Theorem C11_edit_script :
   forall (T : Type) (eqb : T -> T -> bool),
-    (forall x, eqb x x = true) ->
     (forall x y, eqb x y = true -> eqb y x = true) ->
     (forall x y z, eqb x y = true -> eqb y z = true -> eqb x z = true) ->
     forall lhs rhs,
@@ -62,6 +64,27 @@ Proof. unfold key_eqb. intros x y H. apply Nat.eqb_eq in H. rewrite H. apply Nat
 Lemma key_trans : forall x y z, key_eqb x y = true -> key_eqb y z = true -> key_eqb x z = true.
 Proof. unfold key_eqb. intros x y z H1 H2. apply Nat.eqb_eq in H1. now rewrite H1. Qed.
 
+(* ... and on a partial equivalence that is not reflexive: equality except that 9 is related to
+   nothing, not even itself (as NaN under ==) *)
+Definition nan_eqb (a b : nat) : bool := Nat.eqb a b && negb (Nat.eqb a 9).
+Lemma nan_sym : forall x y, nan_eqb x y = true -> nan_eqb y x = true.
+Proof.
+  unfold nan_eqb. intros x y H. apply andb_true_iff in H. destruct H as [H1 H2].
+  apply Nat.eqb_eq in H1. subst y. now rewrite Nat.eqb_refl.
+Qed.
+Lemma nan_trans : forall x y z, nan_eqb x y = true -> nan_eqb y z = true -> nan_eqb x z = true.
+Proof.
+  unfold nan_eqb. intros x y z H H'. apply andb_true_iff in H. destruct H as [H1 H2].
+  apply Nat.eqb_eq in H1. now subst y.
+Qed.
+
+Example C11_edit_script_nan_ex :
+  nan_eqb 9 9 = false /\
+  edit_script_run_cap nan_eqb [9] [9; 9] [9; 1; 2; 9; 3] [9; 1; 9; 3]
+  = EOk [mkEdit Replace [9] [9]; mkEdit Emit [1] []; mkEdit Replace [2; 9] [9]; mkEdit Emit [3] []] /\
+  edit_script_func nan_eqb [1; 9] [1; 9] = [mkEdit Emit [1] []; mkEdit Replace [9] [9]].
+Proof. vm_compute. repeat split. Qed.
+
 Example C11_edit_script_ex :
   edit_script_run_cap key_eqb [(9,9); (9,9)] [(1,3)]
     [(1,0); (2,0); (1,1); (3,0); (1,2)] [(1,7); (1,8); (4,7); (1,9); (2,7)]
@@ -74,11 +97,10 @@ Proof. vm_compute. reflexivity. Qed.
 (* no index ever out of range, no slice bound out of range, no loop out of fuel *)
 Theorem C11_no_panic :
   forall (T : Type) (eqb : T -> T -> bool),
-    (forall x, eqb x x = true) ->
     (forall x y, eqb x y = true -> eqb y x = true) ->
     (forall x y z, eqb x y = true -> eqb y z = true -> eqb x z = true) ->
     forall lhs rhs, edit_script_run eqb lhs rhs = EOk (edit_script_func eqb lhs rhs).
-Proof. exact edit_script_run_ok. Qed.
+Proof. exact edit_script_run_ok_per. Qed.
 Print Assumptions C11_no_panic.
 
 (* the precondition matters: under an irreflexive relation the real code (and the model)
@@ -96,25 +118,24 @@ Theorem C11_capacity_monotone :
 Proof. exact edit_script_run_cap_mono. Qed.
 Print Assumptions C11_capacity_monotone.
 
-(* not vacuous outside the precondition either: under <= (not symmetric) the code returns
-   normally, with or without spare capacity; under < (irreflexive) a re-matching loop indexes
-   past len and panics however large cap is (an index is checked against len) *)
+(* the hypothesis is satisfiable (stated so that it does not depend on which of several longest
+   common subsequences LCSFunc picks); and an index past len panics however large cap is (an
+   index is checked against len): the irreflexive < again *)
 Example C11_capacity_monotone_ex :
-  edit_script_run Nat.leb [1; 0; 3] [0; 1; 2] = EOk [mkEdit Emit [1; 0] []; mkEdit Replace [3] [2]] /\
-  edit_script_run_cap Nat.leb [9; 9; 9] [8; 8] [1; 0; 3] [0; 1; 2]
-    = EOk [mkEdit Emit [1; 0] []; mkEdit Replace [3] [2]] /\
+  (exists es, es <> [] /\
+     edit_script_run key_eqb [(1,0); (2,0); (1,1)] [(1,7); (1,8); (4,7)] = EOk es /\
+     edit_script_run_cap key_eqb [(1,5); (4,5)] [(2,6)] [(1,0); (2,0); (1,1)] [(1,7); (1,8); (4,7)] = EOk es) /\
   edit_script_run_cap Nat.ltb [9; 9; 9] [9; 9; 9] [0] [1; 1] = EPanic.
-Proof. vm_compute. auto. Qed.
+Proof. vm_compute. split; [|reflexivity]. eexists. repeat split. discriminate. Qed.
 
 (* for an equivalence: whatever the spare capacity holds, the script of the theorems below *)
 Theorem C11_any_capacity :
   forall (T : Type) (eqb : T -> T -> bool),
-    (forall x, eqb x x = true) ->
     (forall x y, eqb x y = true -> eqb y x = true) ->
     (forall x y z, eqb x y = true -> eqb y z = true -> eqb x z = true) ->
     forall lx rx lhs rhs,
       edit_script_run_cap eqb lx rx lhs rhs = EOk (edit_script_func eqb lhs rhs).
-Proof. exact edit_script_run_cap_indep. Qed.
+Proof. exact edit_script_run_cap_indep_per. Qed.
 Print Assumptions C11_any_capacity.
 
 Example C11_any_capacity_ex :
@@ -125,11 +146,10 @@ Proof. vm_compute. reflexivity. Qed.
 (* executing the edits consumes lhs and produces rhs, X/Y the spans at the current offsets *)
 Theorem C11_valid :
   forall (T : Type) (eqb : T -> T -> bool),
-    (forall x, eqb x x = true) ->
     (forall x y, eqb x y = true -> eqb y x = true) ->
     (forall x y z, eqb x y = true -> eqb y z = true -> eqb x z = true) ->
     forall lhs rhs, ValidScript eqb lhs rhs (edit_script_func eqb lhs rhs).
-Proof. exact edit_script_valid. Qed.
+Proof. exact edit_script_valid_per. Qed.
 Print Assumptions C11_valid.
 
 Example C11_valid_ex :
@@ -139,7 +159,23 @@ Example C11_valid_ex :
   = true.
 Proof. vm_compute. reflexivity. Qed.
 
-(* the same, read as an execution: what is consumed is lhs, what is output is rhs up to eqb *)
+(* read as an execution, for a partial equivalence: what is consumed is lhs; what is output is
+   rhs, position by position the very element (Copy / Replace) or an equivalent one (Emit) *)
+Theorem C11_executes_per :
+  forall (T : Type) (eqb : T -> T -> bool),
+    (forall x y, eqb x y = true -> eqb y x = true) ->
+    (forall x y z, eqb x y = true -> eqb y z = true -> eqb x z = true) ->
+    forall lhs rhs,
+      let es := expand lhs (edit_script_func eqb lhs rhs) in
+      consumed es = lhs /\ Forall2 (fun a b => a = b \/ eqb a b = true) (produced es) rhs.
+Proof. exact edit_script_exec_per. Qed.
+Print Assumptions C11_executes_per.
+
+Example C11_executes_per_ex :
+  produced (expand [9; 1; 2; 9; 3] (edit_script_func nan_eqb [9; 1; 2; 9; 3] [9; 1; 9; 3])) = [9; 1; 9; 3].
+Proof. vm_compute. reflexivity. Qed.
+
+(* the same for an equivalence: what is consumed is lhs, what is output is rhs up to eqb *)
 Theorem C11_executes :
   forall (T : Type) (eqb : T -> T -> bool),
     (forall x, eqb x x = true) ->
@@ -170,25 +206,23 @@ Proof. vm_compute. reflexivity. Qed.
 (* the number of kept elements is the length of what LCSFunc returns ... *)
 Theorem C11_kept_is_lcs_length :
   forall (T : Type) (eqb : T -> T -> bool),
-    (forall x, eqb x x = true) ->
     (forall x y, eqb x y = true -> eqb y x = true) ->
     (forall x y z, eqb x y = true -> eqb y z = true -> eqb x z = true) ->
     forall lhs rhs,
     exists L, lcs_func T eqb lhs rhs = Some L /\
               kept (expand lhs (edit_script_func eqb lhs rhs)) = length L.
-Proof. exact edit_script_kept. Qed.
+Proof. exact edit_script_kept_per. Qed.
 Print Assumptions C11_kept_is_lcs_length.
 
 (* ... and no valid script keeps more (so none is shorter) *)
 Theorem C11_minimal :
   forall (T : Type) (eqb : T -> T -> bool),
-    (forall x, eqb x x = true) ->
     (forall x y, eqb x y = true -> eqb y x = true) ->
     (forall x y z, eqb x y = true -> eqb y z = true -> eqb x z = true) ->
     forall lhs rhs es',
       Valid eqb lhs rhs es' ->
       (kept es' <= kept (expand lhs (edit_script_func eqb lhs rhs)))%nat.
-Proof. exact edit_script_minimal. Qed.
+Proof. exact edit_script_minimal_per. Qed.
 Print Assumptions C11_minimal.
 
 Example C11_minimal_ex :
@@ -200,13 +234,12 @@ Proof. vm_compute. reflexivity. Qed.
    unfused Drop+Copy, adjacent edits of one kind, whatever the unused fields hold *)
 Theorem C11_minimal_general :
   forall (T : Type) (eqb : T -> T -> bool),
-    (forall x, eqb x x = true) ->
     (forall x y, eqb x y = true -> eqb y x = true) ->
     (forall x y z, eqb x y = true -> eqb y z = true -> eqb x z = true) ->
     forall lhs rhs es',
       Exec eqb lhs rhs es' ->
       (kept es' <= kept (expand lhs (edit_script_func eqb lhs rhs)))%nat.
-Proof. exact edit_script_minimal_exec. Qed.
+Proof. exact edit_script_minimal_exec_per. Qed.
 Print Assumptions C11_minimal_general.
 
 (* Exec accepts non-canonical scripts that Valid / canonical reject *)
@@ -229,13 +262,12 @@ Qed.
    inserts fewer elements (cost = |lhs| + |rhs| - 2 kept for every executable script) *)
 Theorem C11_least_cost :
   forall (T : Type) (eqb : T -> T -> bool),
-    (forall x, eqb x x = true) ->
     (forall x y, eqb x y = true -> eqb y x = true) ->
     (forall x y z, eqb x y = true -> eqb y z = true -> eqb x z = true) ->
     forall lhs rhs es',
       Exec eqb lhs rhs es' ->
       (cost (expand lhs (edit_script_func eqb lhs rhs)) <= cost es')%nat.
-Proof. exact edit_script_least_cost. Qed.
+Proof. exact edit_script_least_cost_per. Qed.
 Print Assumptions C11_least_cost.
 
 Example C11_least_cost_ex :
@@ -246,13 +278,12 @@ Proof. vm_compute. auto. Qed.
 (* canonical form *)
 Theorem C11_canonical :
   forall (T : Type) (eqb : T -> T -> bool),
-    (forall x, eqb x x = true) ->
     (forall x y, eqb x y = true -> eqb y x = true) ->
     (forall x y z, eqb x y = true -> eqb y z = true -> eqb x z = true) ->
     forall lhs rhs,
       canonical (edit_script_func eqb lhs rhs) = true /\
       alternating (edit_script_func eqb lhs rhs) = true.
-Proof. exact edit_script_canonical. Qed.
+Proof. exact edit_script_canonical_per. Qed.
 Print Assumptions C11_canonical.
 
 (* the predicate is not vacuous: it rejects an unfused Drop+Copy and two adjacent Emits *)
@@ -266,11 +297,10 @@ Proof. vm_compute. auto. Qed.
 (* empty exactly when the inputs are equal *)
 Theorem C11_empty_iff :
   forall (T : Type) (eqb : T -> T -> bool),
-    (forall x, eqb x x = true) ->
     (forall x y, eqb x y = true -> eqb y x = true) ->
     (forall x y z, eqb x y = true -> eqb y z = true -> eqb x z = true) ->
     forall lhs rhs, edit_script_func eqb lhs rhs = [] <-> EqLists eqb lhs rhs.
-Proof. exact edit_script_empty_iff. Qed.
+Proof. exact edit_script_empty_iff_per. Qed.
 Print Assumptions C11_empty_iff.
 
 Theorem C11_empty_iff_eq :
